@@ -2,7 +2,7 @@ HOOK_COMMITS = []
 NOTES = ('All checks are driven by bin/check <ID> --tier quick|thorough; exit 0/1/2 as described in DESIGN.md 2.4. '
          'known_findings.json lists recorded defects and fixed ones.')
 _pending = 'check not built yet in this revision (see DESIGN.md); will be claimed when its specification and harness exist'
-for _p in ['C02','C03','C04','C05','C06','C07','C08','C09','C10','C11','C13','C14','C15','C16','C17','C18','C19','C20']:
+for _p in ['C02','C03','C04','C05','C06','C07','C08','C10','C11','C13','C14','C15','C16','C18','C19','C20']:
     NA[_p] = _pending
 NA['C01'] = ('power balance needs numerical integration of the reported pattern over the sphere and a 1.5 % physical '
              'tolerance of the true kernel: numeric accuracy with no discrete content, nothing a TLA+ specification can decide (DESIGN.md section 5)')
@@ -17,3 +17,22 @@ check('C12', 'model_checking',
       'Trusted: TLC, the concretiser (harness/topo.py), the report parser. Wires with equal segmentation only in the replay; arcs and helices '
       'share the same connection code. Tapered wires (first segment not the shortest) are covered by a separate scenario list.',
       'TLC model checking of Topology.tla + exhaustive spec-to-code replay', 'DESIGN.md 4 C12, 3.1')
+
+check('C09', 'model_checking',
+      'TLC checks KCL, FreeEndZero and JunctionEndIsSum over the coefficient vectors of the J/E lines on every configuration of '
+      'spec/Topology.tla (all end-to-end combinations, orders, tags, chains, stars of up to 6 ends, two-wire loops, with and without ground). '
+      'Binding: for every final state the real CURRENT DATA block is rendered with synthetic currents and the exact integer coefficient of '
+      'every pulse current in every J/E line is decoded from the text; it must equal the specification line by line, KCL is evaluated on '
+      'the decoded coefficients, unconnected ends must print E with zeros, numbered rows must be the non-junction pulses.',
+      'Trusted: TLC, the base-5 coefficient decoding (relies on the block being linear in Mininec.current), the report parser. One recorded '
+      'defect (first-end junction line of a hub wire with >= 2 neighbours) is a known finding because its one-character repair changes two '
+      'golden files of the pinned suite.',
+      'TLC model checking of Topology.tla + coefficient extraction from the real report', 'DESIGN.md 4 C09')
+check('C17', 'model_checking',
+      'TLC checks OwnerIsLaterTag, TagOrder, TagAssignment, AddrFormsAgree, AllOnce on every configuration of spec/Topology.tla and predicts '
+      'the per-object pulse lists. Binding: every final state is built through the real command line (main) once per valid (k,tag) and '
+      'absolute pulse number, per load attachment form (absolute, per object, all-of-object, all) and with a multi-source / multi-load '
+      'mixed-form command line; Excitation.idx, load.pulses, the SOURCE/LOAD listings and the geometry-table rows must name the predicted '
+      'pulses, both forms must give bit-identical right-hand sides and (sampled) identical solved reports, invalid numbers must be diagnostics.',
+      'Trusted: TLC, concretiser, report parser. Wires only. Solved-report comparison on a seeded sample (10 % quick, 30 % thorough).',
+      'TLC model checking of Topology.tla + spec-to-code replay through main()', 'DESIGN.md 4 C17')
